@@ -1315,6 +1315,8 @@ class FT(FuncTranslator):
                     return ty
             raise SyntaxError('cast without to')
         if op == 'select':
+            while t[i][1] in FMF:
+                i += 1
             cty, j = m.parse_type(t, i)
             j = self.skip_value(t, j)
             ty, _ = m.parse_type(t, j + 1)
